@@ -317,8 +317,9 @@ func (f *frame) copyRange(et types.Type, dArr, dLo, sArrT, sLo, n string, srcSt 
 	hOld := vc.lookup(f.st, hn, hs)
 	hSrc := vc.lookup(srcSt, hn, hs)
 	row := vc.fresh("row", "(Array Int "+srt+")")
-	vc.emit(fmt.Sprintf("(assert (forall ((i Int)) (! (= (select %s i) (ite (and (<= %s i) (< i (+ %s %s))) (select (select %s %s) (+ %s (- i %s))) (select (select %s %s) i))) :pattern ((select %s i)))))",
-		row, dLo, dLo, n, hSrc, sArrT, sLo, dLo, hOld, dArr, row))
+	vc.rowAxiom(row, func(i string) string {
+		return fmt.Sprintf("(ite (and (<= %s %s) (< %s (+ %s %s))) (select (select %s %s) (+ %s (- %s %s))) (select (select %s %s) %s))", dLo, i, i, dLo, n, hSrc, sArrT, sLo, i, dLo, hOld, dArr, i)
+	})
 	f.st = vc.store(f.st, hn, hs, sx("store", hOld, dArr, row))
 }
 
